@@ -27,11 +27,14 @@ use std::ops::{Add, Div, Mul, Sub};
 fn corpus<Q>(tag: &str)
 where
     Q: HasRefUnit + Display + PartialOrd + Add<Output = Q> + Sub<Output = Q> + Div<Output = AmountT>,
-    Q::UnitType: LinearScaledUnit + Debug,
+    Q::UnitType: LinearScaledUnit + Debug + Display,
 {
     let us: Vec<Q::UnitType> = Q::iter_units().collect();
     for u in &us {
         println!("{tag}|unit|{:?}|{}|{}|{:?}|{}|{}", u, u.name(), u.symbol(), u.si_prefix(), u.scale(), u.is_ref_unit());
+        // every symbol (incl. the multi-byte ones) through width, fill, alignment and zero padding
+        let q = Q::new(Amnt!(2.5), *u);
+        println!("{tag}|ufmt|{:?}|{:>12}|{:^15.1}|{:<10}|{:012.2}|{:*>9}|{:^7}|", u, q, q, q, q, u, u);
     }
     for u in &us {
         for v in &us {
@@ -146,12 +149,16 @@ where
 fn noref_corpus<Q>(tag: &str)
 where
     Q: Quantity + Display + PartialOrd + Add<Output = Q> + Sub<Output = Q> + Div<Output = AmountT> + std::panic::UnwindSafe + 'static,
-    Q::UnitType: Debug,
+    Q::UnitType: Debug + Display,
 {
     fn ev<T: Display, F: FnOnce() -> T + std::panic::UnwindSafe>(f: F) -> String {
         std::panic::catch_unwind(f).map(|v| format!("{}", v)).unwrap_or_else(|_| "panic".to_string())
     }
     let us: Vec<Q::UnitType> = Q::iter_units().collect();
+    for u in &us {
+        let q = Q::new(Amnt!(2.5), *u);
+        println!("{tag}|ufmt|{:?}|{:>12}|{:^15.1}|{:<10}|{:012.2}|{:*>9}|{:^7}|", u, q, q, q, q, u, u);
+    }
     for u in &us {
         for v in &us {
             for (x, y) in [(Amnt!(2.5), Amnt!(40)), (Amnt!(7), Amnt!(7)), (Amnt!(0), Amnt!(-3))] {
@@ -174,7 +181,7 @@ struct Udef {}
 #[quantity]
 #[ref_unit(Uref, "ur", "uref")]
 #[unit(Kilouref, "kur", KILO, 1000, "1000·ur")]
-#[unit(Halfuref, "hur", 0.5, "ur/2")]
+#[unit(Halfuref, "½ur", 0.5, "ur/2")]
 struct Urq {}
 
 #[quantity]
